@@ -238,6 +238,7 @@ def w_rekey(depth: int, seed: int) -> Part:
                     for h in hist:
                         t = tables[h]
                         xknx.cemi_handler.data_secure_init(None if t is None else keyring(t))
+                        part.transitions += 1
                 except Exception as exc:  # noqa: BLE001
                     part.viol(exc_sig("data-secure-init-raises", exc), f"{case}: {exc!r}", case)
                     continue
@@ -250,6 +251,7 @@ def w_rekey(depth: int, seed: int) -> Part:
                             part.evaluations += 1
                             part.nontrivial += 1
                             part.state((hist, ga, kname, enc))
+                            part.transitions += 1
                             raw = secure_frame(key, SA, ga, seq, apdu_of(2), encrypt=enc)
                             try:
                                 xknx.cemi_handler.handle_raw_cemi(raw)
